@@ -54,6 +54,26 @@ func Run(ctx *common.Ctx) int {
 			}
 		}
 	}
+	// a concurrency-safe source may still deliver short reads: a few such sources under schedule exploration
+	for wi := range wf.All {
+		w := &wf.All[wi]
+		if quick && w.Name == "Factory" {
+			continue
+		}
+		for _, W := range []int{2, 3} {
+			if quick && W == 3 {
+				continue
+			}
+			var specs []fast.SrcSpec
+			for _, idx := range []int{0, 1, w.S / 2, w.S - 1} {
+				specs = append(specs, fast.SrcSpec{Kind: "short", Index: idx, Index2: -1, Size: "half"})
+			}
+			specs = append(specs, fast.SrcSpec{Kind: "uniform", Index2: -1, Size: "half"}, fast.SrcSpec{Kind: "uniform", Index2: -1, Size: "997"})
+			for _, sp := range specs {
+				fast.MkTask("C08", "c08", w, "item0-at-threshold", sp, W, 1, 0, 1, &tasks)
+			}
+		}
+	}
 	ctx.Printf("C08: %d exploration tasks (instrumented constructs: %v)\n", len(tasks), info.Counts)
 	m := e1.RunTasks(ctx, info.Bin, tasks, 0, false)
 	// race pass: same bodies, free-running, -race
